@@ -375,7 +375,7 @@ def lazy_checks(stream, msgs, rng, rec):
             for ev in fe.marshal(tpm_type=CommandResponseStream, buffer=src, abort_on_error=True):
                 e = TR.record_event(ev)
                 if e.kind == "M" and isinstance(e.chunk, bytes):
-                    consumed += len(e.chunk)
+                    consumed += len(e.chunk) if isinstance(e.chunk, bytes) else 0 if isinstance(e.chunk, bytes) else 0
                 bound = ends[consumed] if consumed < len(ends) else len(text)
                 rec.count(f"lazy_{fe_name}_events")
                 if src.n > bound:
@@ -397,7 +397,7 @@ def lazy_checks(stream, msgs, rng, rec):
         for ev in Binary.marshal(tpm_type=CommandResponseStream, buffer=bytes_from_files(files), abort_on_error=True):
             e = TR.record_event(ev)
             if e.kind == "M" and isinstance(e.chunk, bytes):
-                consumed += len(e.chunk)
+                consumed += len(e.chunk) if isinstance(e.chunk, bytes) else 0
             rec.count("lazy_files_events")
             for fk in set(log):
                 if consumed < starts[fk]:
